@@ -181,7 +181,8 @@ def report(prop, tier, seed, spec_, results, skipped, known, t0, args):
 
 def _known_text(k):
   t = k["text"]
-  return t[t.index("match="):] if "match=" in t else t
+  t = t[t.index("match="):] if "match=" in t else t
+  return t if len(t) <= 260 else t[:257] + "..."
 
 
 def _slug(key):
